@@ -75,6 +75,9 @@ func Corpus() []Case {
 // productCase explores, for one corpus body, every history of length <= maxLen over ops x contexts.
 func (w *worker) productCase(c Case, maxLen int) {
 	r := w.r
+	if stopEarly(r) {
+		return
+	}
 	traces, nodes, unsup := modelTraces(c.Prog, maxLen)
 	if unsup != "" {
 		r.Add("model_unsupported_bodies", 1)
@@ -96,11 +99,15 @@ func (w *worker) productCase(c Case, maxLen int) {
 			h := make([]Step, len(tr))
 			copy(h, tr)
 			x := a
+			oneRun := true // unless a call is issued from Go: then one script run per call
 			for i := range h {
 				h[i].Ctx = x % nctx
 				x /= nctx
+				if h[i].Ctx == ctxGo {
+					oneRun = false
+				}
 			}
-			n, vc, class := w.runGenHistory(c, src, h, false)
+			n, vc, class := w.runGenHistory(c, src, h, false, oneRun)
 			r.Transitions(int64(n))
 			r.States(1)
 			if vc != nil {
